@@ -85,6 +85,7 @@ pub fn make(wl: &str, rng: &mut Rng, cfg: &CheckCfg, k: u64) -> Option<Scenario>
             Some(Scenario { kind: "loop".into(), prog, args: vec![n], meta: vec![] })
         }
         "loop2" => Some(make_loop2(rng, &cfg.backends)),
+        "pipe" | "pipe-rv" => make_pipe(rng, wl == "pipe-rv", cfg.max_stmts),
         "abi" => Some(make_abi(rng, &cfg.backends)),
         "subst" => Some(make_subst(rng, &cfg.backends)),
         _ => None,
@@ -851,4 +852,36 @@ pub fn make_loop2(rng: &mut Rng, backends: &[Backend]) -> Scenario {
     };
     let n = 2 + rng.below(40) as i64;
     Scenario { kind: "loop".into(), prog, args: vec![n], meta: vec![] }
+}
+
+// ---------------------------------------------------------------------------------------------
+// W-pipe: linear AxCut obtained by running generated Fun programs through the real front and
+// middle end (shapes the hand-written generator does not produce: lifted statements, continuation
+// closures, the substitutions `linearize` really inserts)
+
+pub fn make_pipe(rng: &mut Rng, print_free: bool, size: usize) -> Option<Scenario> {
+    let mut cfg = crate::fungen::FunCfg::swarm(rng, size.min(80));
+    if print_free {
+        cfg.print_pct = 0;
+        cfg.many_live = false;
+    }
+    cfg.shadow_pct = 0;
+    let fp = crate::fungen::generate(rng, &cfg);
+    if print_free && fp.unique.contains("print") {
+        // effectful definitions may still print; such programs are useless for the RISC-V backend
+    }
+    let src = fp.unique.clone();
+    let keys = rng.next() | 1;
+    let json = crate::seam::in_instance(keys, move || -> Option<String> {
+        let parsed = fun::parser::parse_module(&src).ok()?;
+        let checked = parsed.check().ok()?;
+        let compiled = fun2core::program::compile_prog(checked);
+        let focused = compiled.focus();
+        let mut lin = core2axcut::program::shrink_prog(focused);
+        lin.linearize();
+        Some(serde_json::to_string(&from_axcut(&lin)).ok()?)
+    })
+    .ok()??;
+    let prog: Prog = serde_json::from_str(&json).ok()?;
+    Some(Scenario { kind: "pipe".into(), prog, args: fp.args, meta: vec![] })
 }
